@@ -777,12 +777,25 @@ pub fn run_parts(prop_id: &str, parts: &[&Box<dyn PartDyn>], tier: Tier, seed: u
             let prop_id = prop_id.to_string();
             s.spawn(move || {
                 let limit_ms: u64 = std::env::var("RQV_WATCHDOG_S").ok().and_then(|v| v.parse().ok()).unwrap_or(60) * 1000;
+                // (memory: a case that allocates without bound is stopped long before the time limit; the resident
+                // set of a normal run stays below 2 GB)
+                let mem_limit: u64 = std::env::var("RQV_MEM_LIMIT_GB").ok().and_then(|v| v.parse().ok()).unwrap_or(12) << 30;
                 while !dn.load(Ordering::Relaxed) {
                     std::thread::sleep(std::time::Duration::from_millis(250));
                     let now = pr.t0.elapsed().as_millis() as u64;
+                    let rss = std::fs::read_to_string("/proc/self/statm").ok().and_then(|t| t.split_whitespace().nth(1).and_then(|v| v.parse::<u64>().ok())).unwrap_or(0) * 4096;
+                    // over the memory limit: blame the case that has been running longest
+                    let oldest = if rss > mem_limit {
+                        pr.cur.iter().enumerate().filter_map(|(sh, (_, start))| { let st = start.load(Ordering::Relaxed); if st != u64::MAX && now > st { Some((now - st, sh)) } else { None } }).max().map(|(_, sh)| sh)
+                    } else {
+                        None
+                    };
+                    if rss > mem_limit {
+                        println!("WATCHDOG resident memory {} MB exceeds the limit", rss >> 20);
+                    }
                     for (sh, (idx, start)) in pr.cur.iter().enumerate() {
                         let st = start.load(Ordering::Relaxed);
-                        if st != u64::MAX && now > st && now - st > limit_ms {
+                        if (st != u64::MAX && now > st && now - st > limit_ms) || oldest == Some(sh) {
                             let index = idx.load(Ordering::Relaxed);
                             println!("WATCHDOG part={} shard={} case_index={} running for {} ms: inconclusive", pname, sh, index, now - st);
                             let stuck = pr.slot[sh].lock().ok().and_then(|g| g.as_ref().map(|f| f()));
